@@ -80,6 +80,7 @@ macro_rules! dispatch {
             "chaos" => $f::<engines::chaos::Chaos>($($args),*),
             "bitshare" => $f::<engines::bitshare::Bitshare>($($args),*),
             "clones" => $f::<engines::clones::Clones>($($args),*),
+            #[cfg(feature = "repl")]
             "repl" => $f::<engines::repl::Repl>($($args),*),
             other => {
                 eprintln!("unknown engine {}", other);
@@ -505,7 +506,8 @@ fn cmd_check(a: &Args) -> i32 {
             runs,
             jobs: jobs(),
             verif_dir: vd.clone(),
-            hang_secs: a.opt("--hang-secs").and_then(|s| s.parse().ok()).unwrap_or(30.0),
+            // CPU seconds one case may take; the enumerating tiers have cases that need ten
+            hang_secs: a.opt("--hang-secs").and_then(|s| s.parse().ok()).unwrap_or(if tier == Tier::Thorough { 120.0 } else { 30.0 }),
             max_secs: a.opt("--max-secs").and_then(|s| s.parse().ok()),
             per_run_log: false,
             profile: profile.to_string(),
@@ -659,7 +661,13 @@ fn cmd_eval(a: &Args) -> i32 {
     let lim = a.num("--limit", 100_000) as usize;
     xs.set_insn_limit(Some(lim)).unwrap();
     let cr = a.opt("--style") == Some("compile+run");
-    for src in &a.pos[1..] {
+    let stack_limit_at = a.opt("--stack-limit").and_then(|s| s.parse::<usize>().ok());
+    for (i, src) in a.pos[1..].iter().enumerate() {
+        if let (Some(l), true) = (stack_limit_at, i + 2 == a.pos.len()) {
+            // armed before the last source
+            xs.set_stack_limit(Some(l)).unwrap();
+            let _ = xs.verif_watch_take();
+        }
         if cr {
             // what a REPL line does: the limit is re-armed, then compile and run
             xs.set_insn_limit(Some(lim)).unwrap();
@@ -673,6 +681,7 @@ fn cmd_eval(a: &Args) -> i32 {
         let stack: Vec<String> = (0..n).map(|i| format!("{:?}", xs.get_data(i).unwrap())).collect();
         println!("   stack (top first): {:?}", stack);
     }
+    println!("watch: {:?}", xs.verif_watch_take());
     let d = xs.verif_dump();
     println!("{:#?}", d);
     0
